@@ -939,7 +939,7 @@ func (r *rig) start(op rigOp) error {
 // wedgeOracle is what C12 states about a session after a fault or a session Close, evaluated on the rig's
 // bookkeeping while the bubble is permanently stuck: every blocked call has returned and every connection has
 // been closed by both sessions. Before any teardown was triggered there is nothing to judge.
-func (r *rig) wedgeOracle() error {
+func (r *rig) wedgeOracle(vk.Wedge) error {
 	if !r.faulted {
 		return nil
 	}
